@@ -17,6 +17,7 @@ import (
 	"hash"
 	"runtime"
 	"sort"
+	"strconv"
 	"strings"
 	"sync/atomic"
 	"testing/synctest"
@@ -44,7 +45,10 @@ type Task struct {
 	Name  string // spawn site
 	Label string // harness supplied (e.g. "conn3")
 
-	state atomic.Int32
+	// plain, not atomic: an atomic would be a synchronisation edge task -> scheduler in the
+	// eyes of the race detector (atomics are not covered by RaceDisable). It is only read when
+	// every goroutine of the bubble is durably blocked.
+	state int32
 	wake  chan struct{}
 	kill  chan struct{}
 
@@ -66,10 +70,14 @@ type Task struct {
 }
 
 //go:norace
-func (t *Task) State() string { return taskState(t.state.Load()).String() }
+//go:norace
+func (t *Task) setState(st taskState) { t.state = int32(st) }
 
 //go:norace
-func (t *Task) st() taskState { return taskState(t.state.Load()) }
+func (t *Task) State() string { return taskState(t.state).String() }
+
+//go:norace
+func (t *Task) st() taskState { return taskState(t.state) }
 
 //go:norace
 func (t *Task) Done() bool { return t.st() == stDone }
@@ -157,6 +165,7 @@ type Sim struct {
 	evPrio    float64
 
 	digest hash.Hash
+	logbuf []byte
 	trace  []string
 
 	Panics   []*Task
@@ -206,6 +215,10 @@ func New(cfg Config) *Sim {
 		s.evPrio = s.sched.Float64()
 	}
 	theSim.Store(s)
+	// The scheduler goroutine (the bubble's root: harness, clients, network, oracles) performs
+	// no synchronisation the race detector may see, for the whole run: any edge it took part
+	// in would order tasks with one another that the program itself does not order.
+	raceDisable()
 	return s
 }
 
@@ -216,7 +229,10 @@ func (s *Sim) Now() time.Duration { return time.Since(s.start) }
 func (s *Sim) Config() Config { return s.cfg }
 
 // Logf appends to the event log (digest always, text only when tracing). It never draws
-// from a PRNG and never reads a clock other than the simulated one.
+// from a PRNG and never reads a clock other than the simulated one. Outside trace mode it does
+// not go through fmt: the scheduler goroutine is deliberately not ordered with the tasks for
+// the race detector, and fmt's pooled buffers would show up as (harmless, but slow to print)
+// reports.
 //
 //go:norace
 func (s *Sim) Logf(format string, a ...any) {
@@ -230,11 +246,54 @@ func (s *Sim) Logf(format string, a ...any) {
 		s.trace = append(s.trace, fmt.Sprintf("%12d ", int64(s.Now()/time.Microsecond))+line)
 		return
 	}
-	fmt.Fprintf(s.digest, format, a...)
-	s.digest.Write([]byte{'\n'})
+	// same bytes as fmt would produce for the verbs the simulator uses (%s %d %q %v on
+	// strings and integers); anything else falls back to fmt
+	buf := s.logbuf[:0]
+	ai := 0
+	for i := 0; i < len(format); i++ {
+		c := format[i]
+		if c != '%' || i+1 >= len(format) {
+			buf = append(buf, c)
+			continue
+		}
+		i++
+		if format[i] == '%' {
+			buf = append(buf, '%')
+			continue
+		}
+		if ai >= len(a) {
+			buf = append(buf, '?')
+			continue
+		}
+		switch v := a[ai].(type) {
+		case string:
+			if format[i] == 'q' {
+				buf = strconv.AppendQuote(buf, v)
+			} else {
+				buf = append(buf, v...)
+			}
+		case int:
+			buf = strconv.AppendInt(buf, int64(v), 10)
+		case int32:
+			buf = strconv.AppendInt(buf, int64(v), 10)
+		case int64:
+			buf = strconv.AppendInt(buf, v, 10)
+		case uint32:
+			buf = strconv.AppendUint(buf, uint64(v), 10)
+		case uint64:
+			buf = strconv.AppendUint(buf, v, 10)
+		case uint8:
+			buf = strconv.AppendUint(buf, uint64(v), 10)
+		default:
+			buf = append(buf, fmt.Sprint(v)...)
+		}
+		ai++
+	}
+	buf = append(buf, '\n')
+	s.digest.Write(buf)
+	s.logbuf = buf
 }
 
-//go:norace
 func (s *Sim) Digest() string { return hex.EncodeToString(s.digest.Sum(nil)) }
 
 //go:norace
@@ -302,7 +361,7 @@ func (s *Sim) mapRand(site string) *Rand {
 func (s *Sim) spawn(name string, f func()) *Task {
 	t := &Task{ID: s.nextID, Name: name, wake: make(chan struct{}, 1), kill: make(chan struct{})}
 	s.nextID++
-	t.state.Store(int32(stRunnable))
+	t.setState(stRunnable)
 	t.Site = "start:" + name
 	if s.cfg.Policy == "pct" {
 		t.prio = s.sched.Float64()
@@ -320,7 +379,7 @@ func (s *Sim) spawn(name string, f func()) *Task {
 				}
 			}
 			raceDisable()
-			t.state.Store(int32(stDone))
+			t.setState(stDone)
 			if s.current == t {
 				s.current = nil
 			}
@@ -381,7 +440,7 @@ func (s *Sim) LiveTasks() []*Task {
 //go:norace
 func (s *Sim) park(t *Task, st taskState) {
 	raceDisable()
-	t.state.Store(int32(st))
+	t.setState(st)
 	if s.current == t {
 		s.current = nil
 	}
@@ -423,7 +482,7 @@ func callerSite(skip int) string {
 			f = f[j+1:]
 		}
 	}
-	v := fmt.Sprintf("%s:%d", f, fr.Line)
+	v := f + ":" + strconv.Itoa(fr.Line)
 	siteCache.Store(pc, v)
 	return v
 }
@@ -460,7 +519,7 @@ func Yield(site string) {
 //go:norace
 func (s *Sim) enterNative(t *Task) {
 	raceDisable()
-	t.state.Store(int32(stNative))
+	t.setState(stNative)
 	s.current = nil
 	raceEnable()
 }
@@ -474,7 +533,7 @@ func (s *Sim) exitNative(t *Task) {
 //go:norace
 func (s *Sim) parkQuiet(t *Task) {
 	raceDisable()
-	t.state.Store(int32(stRunnable))
+	t.setState(stRunnable)
 	select {
 	case <-t.wake:
 	case <-t.kill:
@@ -553,7 +612,7 @@ func (s *Sim) Step() bool {
 	if s.current != nil {
 		// A task kept the baton and is durably blocked in something we do not model.
 		s.Failure = fmt.Sprintf("unmodelled blocking operation in task %d %s (%s) at %s", s.current.ID, s.current.Name, s.current.Label, s.current.Site)
-		s.current.state.Store(int32(stNative))
+		s.current.setState(stNative)
 		s.current = nil
 	}
 	if s.Steps >= s.cfg.MaxSteps {
@@ -630,7 +689,7 @@ func (s *Sim) Step() bool {
 	}
 	s.siteHits[t.Site]++
 	s.current = t
-	t.state.Store(int32(stRunning))
+	t.setState(stRunning)
 	t.wake <- struct{}{}
 	return true
 }
@@ -804,7 +863,11 @@ func (s *Sim) SiteHits() map[string]int { return s.siteHits }
 //go:norace
 func (s *Sim) Inspect(f func()) (ok bool) {
 	s.inspect = true
+	// the harness reading server state through the program's own locks must not order the
+	// tasks with one another in the eyes of the race detector
+	raceDisable()
 	defer func() {
+		raceEnable()
 		s.inspect = false
 		if r := recover(); r != nil {
 			if _, busy := r.(inspectBusy); busy {
@@ -840,6 +903,7 @@ func (s *Sim) Close() {
 		s.current = nil
 	}
 	s.events = nil
+	raceEnable()
 	theSim.CompareAndSwap(s, nil)
 }
 
